@@ -102,6 +102,8 @@ func (c *checker) newDir() string {
 
 // ---------------------------------------------------------------- in-process compilation
 
+var rootSpelling int
+
 // implCompile compiles the program rendered in dir with the given visit orders
 // (nil: plain compile.Compile with Go's own map order) and answers in the
 // driver's syntax. A panic is reported as "panic: …".
@@ -120,6 +122,15 @@ func implCompile(dir string, p *Prog, o Orders) (answer string, mod *compile.Mod
 		opts = append(opts, compile.NonStrict())
 	}
 	root := filepath.Join(dir, p.Files[0].Path)
+	// the root file may be named by any path that denotes it: every third compilation spells it
+	// in an unclean form (a file reached again through an include cycle is still the same module)
+	rootSpelling++
+	switch rootSpelling % 6 {
+	case 2:
+		root = dir + "/./" + p.Files[0].Path
+	case 4:
+		root = filepath.Dir(dir) + "/" + filepath.Base(dir) + "/../" + filepath.Base(dir) + "//" + p.Files[0].Path
+	}
 	d := newDumper(dir, p)
 	var m *compile.Module
 	var err error
